@@ -109,6 +109,10 @@ func (seg Segment) IntersectsSegment(other Segment) bool {
 		// Lines are collinear, and so intersect if they have any overlap
 		if !(((c.X-a.X <= 0) != (c.X-b.X <= 0)) ||
 			((c.Y-a.Y <= 0) != (c.Y-b.Y <= 0))) {
+			if other.Raycast(seg.A).On {
+				// seg is nested inside of other
+				return true
+			}
 			return seg.Raycast(other.A).On || seg.Raycast(other.B).On
 			//return false
 		}
